@@ -115,6 +115,9 @@ func c05Rows() []Row {
 			}
 		}
 	}
+	// an empty and a nil row in the middle of the stream: every later row must still be processed
+	mid := len(rows) / 2
+	rows = append(rows[:mid], append([]Row{{}, nil, {"a": 5, "b": 1, "s": "x"}}, rows[mid:]...)...)
 	return rows
 }
 
@@ -311,7 +314,11 @@ func (c05) Run(u fw.Unit) fw.Result {
 		r2 := detExec(sql, detOpts{Eager: true, Horizon: 150 * vtime.Millisecond, Setup: nil}, func(e *Env) {
 			ch := e.S.ToChannel()
 			for _, row := range rows {
-				e.Emit(copyVal(row).(map[string]any))
+				if row == nil {
+					e.Emit(nil) // a nil map is a legal (empty) row
+				} else {
+					e.Emit(copyVal(row).(map[string]any))
+				}
 				for {
 					select {
 					case b := <-ch:
